@@ -164,7 +164,8 @@ def render_read(refseq, variants, hap_alleles, segments, *, clips=None, eqx=Fals
     altvars = []
     for v, al in zip(variants, hap_alleles):
         if al:
-            npos, nref, nalt = normalise(v["pos"], v["ref"], v["alt"])
+            # allele 1 = v["alt"], allele 2 = v["alt2"] (multi-allelic records)
+            npos, nref, nalt = normalise(v["pos"], v["ref"], v["alt"] if al == 1 else v["alt2"])
             altvars.append({"npos": npos, "nref": nref, "nalt": nalt})
     altvars.sort(key=lambda x: x["npos"])
     seq = []
@@ -314,7 +315,8 @@ def write_vcf(case, path, *, samples=None, phased=None, extra_format=None, heade
                     else:
                         cols.append(gt_of(hc, vi) + (":." if phased else ""))
                 fmt = "GT:PS" if phased else "GT"
-                f.write("%s\t%d\t.\t%s\t%s\t.\tPASS\t.\t%s\t%s\n" % (c["name"], v["pos"] + 1, v["ref"], v["alt"], fmt, "\t".join(cols)))
+                alt = v["alt"] + ("," + v["alt2"] if v.get("alt2") else "")
+                f.write("%s\t%d\t.\t%s\t%s\t.\tPASS\t.\t%s\t%s\n" % (c["name"], v["pos"] + 1, v["ref"], alt, fmt, "\t".join(cols)))
     return path
 
 
